@@ -262,6 +262,108 @@ def structural():
     return res
 
 
+# independent reading of the stock models' documentation: which physical kind every rated parameter is (device base -> system base)
+STOCK_KIND = {
+    'Line': dict(r='z', x='z', b='y', g='y', b1='y', g1='y', b2='y', g2='y', tap=None, phi=None),
+    'Shunt': dict(g='y', b='y'),
+    'GENCLS': dict(M='power', D='power', ra='z', xl='z', xd1='z'),
+    'GENROU': dict(M='power', D='power', ra='z', xl='z', xd1='z', xd='z', xq='z', xd2='z', xq1='z', xq2='z', Td10=None, Tq10=None),
+    'PQ': dict(p0=None, q0=None), 'PV': dict(p0=None, v0=None), 'Slack': dict(v0=None, a0=None),
+}
+
+
+def stock_sys():
+    if 'stock' not in _SYS:
+        from vlib import cases as CS
+        ss = CS.build([1, 2], lines=[dict(bus1=1, bus2=2, idx='L', Sn=80.0, Vn1=115.0, Vn2=21.0, r=0.01, x=0.1, b=0.02, b2=0.01, g1=0.002)],
+                      slacks=[dict(bus=1, idx='S', Sn=200.0, Vn=110.0)], pvs=[dict(bus=2, idx='G', p0=0.3, Sn=50.0, Vn=20.0)],
+                      pqs=[dict(bus=2, idx='D', p0=0.2, q0=0.05)], shunts=[dict(bus=2, idx='C', Sn=40.0, Vn=22.0, b=0.1)], setup=False,
+                      extra=[('GENCLS', dict(bus=1, gen='S', idx='M1', Sn=200.0, Vn=110.0, M=6.0, D=1.0, xd1=0.3)),
+                             ('GENROU', dict(bus=2, gen='G', idx='M2', Sn=50.0, Vn=21.0))])
+        ss.setup()
+        _SYS['stock'] = ss
+    return _SYS['stock']
+
+
+def h_stock(mname):
+    """real calc_pu_coeff on a real System: every rated parameter of the stock model is converted as its physical kind demands"""
+    def h(I):
+        import andes.system as SY
+        ss = stock_sys()
+        m = ss.models[mname]
+        Sb = I.real('Sb')
+        I.assume(LT(0, Sb))
+        old_mva = ss.config.mva
+        ss.config.mva = Sb
+        Vb = I.arr('Vb_bus1', 'Vb_bus2')
+        ss.Bus.Vn.v = Vb
+        for v in Vb:
+            I.assume(LT(0, v))
+        saved = {}
+        vin = {}
+        for nm in ('Sn', 'Vn', 'Vn1', 'Vn2'):
+            if nm in m.params:
+                p = m.params[nm]
+                saved[nm] = (p.v, p.vin)
+                p.v = I.arr(f'{mname}_{nm}')
+                I.assume(LT(0, p.v[0]))
+        for pn in STOCK_KIND[mname]:
+            p = m.params[pn]
+            saved[pn] = (p.v, p.vin)
+            arr = I.arr(f'{mname}_{pn}_in')
+            p.v, p.vin = arr.copy(), arr.copy()
+            p.pu_coeff = I.to_obj(np.ones(1))
+            vin[pn] = arr[0]
+        others = {k: mm for k, mm in ss.models.items() if mm is not m}
+        try:
+            SY.System.calc_pu_coeff(NS(config=ss.config, models={mname: m}, Bus=ss.Bus, Node=getattr(ss, 'Node', None)))
+            Sn = m.params['Sn'].v[0] if 'Sn' in m.params else Sb
+            if 'bus1' in m.params:
+                vb, vn = Vb[ss.Bus.idx2uid(m.bus1.v[0])], m.params['Vn1'].v[0]
+            elif 'bus' in m.params:
+                vb = Vb[ss.Bus.idx2uid(m.bus.v[0])]
+                vn = m.params['Vn'].v[0] if 'Vn' in m.params else vb
+            else:
+                vb, vn = 1.0, 1.0
+            zn, zb = vn * vn / Sn, vb * vb / Sb
+            factor = {'z': zn / zb, 'y': zb / zn, 'power': Sn / Sb, 'ipower': Sb / Sn, 'current': (Sn / vn) / (Sb / vb), 'voltage': vn / vb, None: 1.0}
+            out = []
+            for pn, kind in STOCK_KIND[mname].items():
+                p = m.params[pn]
+                out.append((f'{mname}.{pn} is converted as a {kind or "base-free"} quantity', EQ(p.v[0], vin[pn] * factor[kind])))
+        finally:
+            ss.config.mva = old_mva
+            for pn, (v, vi) in saved.items():
+                m.params[pn].v, m.params[pn].vin = v, vi
+        return out
+    return h
+
+
+def h_param_add(non_zero, non_negative, non_positive):
+    """real NumParam.add on a symbolic input value: a value inside the declared domain is the value the model uses"""
+    def h(I):
+        import math
+        from andes.core.param import NumParam
+        import andes.core.param as PA
+        dflt = 0.25 if not non_positive else -0.25
+
+        class M:
+            @staticmethod
+            def isnan(x):
+                return False if isinstance(x, pysym.SR) else math.isnan(x)
+        add = pysym.rebind(PA.NumParam.add, float=(float, pysym.SR), math=M, logger=NS(warning=lambda *a, **k: None)) if I.symbolic else \
+            pysym.rebind(PA.NumParam.add, logger=NS(warning=lambda *a, **k: None))
+        p = NumParam(default=dflt, non_zero=non_zero, non_negative=non_negative, non_positive=non_positive)
+        p.name, p.owner = 'p', NS(class_name='X')
+        val = I.real('value')
+        add(p, val)
+        stored = p.v[-1]
+        legal = AND(OR(not non_zero, NOT(EQ(val, 0, tol=0.0))), OR(not non_negative, LE(0, val)), OR(not non_positive, LE(val, 0)))
+        return [('a value inside the declared domain is stored unchanged', IMPLIES(legal, EQ(stored, val, tol=0.0))),
+                ('a value outside the declared domain is replaced by the default', IMPLIES(NOT(legal), EQ(stored, dflt, tol=0.0)))]
+    return h
+
+
 def h_export(I):
     """ModelData.as_dict on parameters with and without an output converter, hidden and None-input parameters"""
     from collections import OrderedDict
@@ -288,6 +390,10 @@ def h_export(I):
 
 def job(spec):
     kind, arg = spec
+    if kind == 'stock':
+        return H.run(f'System.calc_pu_coeff on the stock model {arg}', h_stock(arg), timeout_ms=20000, region=lambda v, c: c)
+    if kind == 'padd':
+        return H.run(f'NumParam.add[non_zero={arg[0]},non_negative={arg[1]},non_positive={arg[2]}]', h_param_add(*arg), region=lambda v, c: c)
     if kind == 'export':
         return H.run('ModelData.as_dict', h_export, region=lambda v, c: c.split(' of device')[0])
     if kind == 'pu':
@@ -313,7 +419,7 @@ def main():
     import andes.core.model.model as MM
     import andes.models.group as GR
     import andes.core.model.modeldata as MD
-    ck.encodes(SY.System.calc_pu_coeff, PA.NumParam.set_pu_coeff, PA.NumParam.restore, MM.Model.set, MM.Model.alter, GR.GroupBase.alter,
+    ck.encodes(PA.NumParam.add, SY.System.calc_pu_coeff, PA.NumParam.set_pu_coeff, PA.NumParam.restore, MM.Model.set, MM.Model.alter, GR.GroupBase.alter,
                GR.GroupBase.set, SY.System._p_restore, MD.ModelData.as_dict, MD.ModelData.find_param)
     thorough = core.tier() == 'thorough'
     ck.bound(bases='all positive reals', sequences='<= 3 alteration calls over 2 devices' if thorough else '<= 2 alteration calls over 2 devices',
@@ -330,7 +436,7 @@ def main():
     if not thorough:
         seqs = [s for i, s in enumerate(seqs) if (i + core.seed()) % 2 == 0]
     jobs += [('seq', s) for s in seqs]
-    jobs += [('tc', o) for o in ('alter_v', 'alter_vin', 'set_v')] + [('struct', 0), ('export', 0)]
+    jobs += [('tc', o) for o in ('alter_v', 'alter_vin', 'set_v')] + [('struct', 0), ('export', 0)] + [('stock', mn) for mn in STOCK_KIND] + [('padd', f) for f in ((0, 0, 0), (1, 0, 0), (0, 1, 0), (0, 0, 1), (1, 1, 0), (1, 0, 1))]
     ck.merge(core.pmap(job, jobs))
     ck.sample({'sequence': 'alter_v@0 > alter_vin@1', 'claim': 'v = vin*k, export = altered vin'})
     ck.finish()
